@@ -18,6 +18,11 @@ use tx3_tir::Node as _;
 
 pub struct C10;
 
+thread_local! {
+    /// the constant template of the previous case of this worker (compiled on an instance just before the current one)
+    static PREVIOUS: std::cell::RefCell<Option<AnyTir>> = const { std::cell::RefCell::new(None) };
+}
+
 fn cbor_uint(major: u8, n: u64, out: &mut Vec<u8>) {
     let m = major << 5;
     if n < 24 {
@@ -269,6 +274,40 @@ impl Property for C10 {
                         }
                     }
                     _ => ctx.violation(format!("nondeterministic:in-process:{name}:outcome"), detail(json!({}))),
+                }
+            }
+            // ... and on an instance that compiled something else just before: the previous case's template,
+            // and a sibling of this very template that runs another Plutus language (same redeemers, another
+            // witness script version) - whatever the instance remembers of those must not show in this payload
+            let sibling = {
+                let AnyTir::V1Beta0(inner) = &t;
+                let mut sib = inner.clone();
+                let mut touched = false;
+                for d in sib.adhoc.iter_mut().filter(|d| d.name == "plutus_witness") {
+                    if let Some(tir::Expression::Number(n)) = d.data.get("version").cloned() {
+                        d.data.insert("version".into(), tir::Expression::Number(if n == 3 { 2 } else { 3 }));
+                        touched = true;
+                    }
+                }
+                if !touched {
+                    sib.adhoc.push(tir::AdHocDirective { name: "plutus_witness".into(), data: [("version".to_string(), tir::Expression::Number(2)), ("script".to_string(), tir::Expression::Bytes(vec![0x4e, 0x4d, 0x01, 0x00, 0x00, 0x33]))].into_iter().collect() });
+                }
+                AnyTir::V1Beta0(sib)
+            };
+            let prev = PREVIOUS.with(|p| p.borrow_mut().replace(t.clone()));
+            for (name, before) in [("sibling-other-plutus-language", Some(sibling)), ("previous-case", prev)] {
+                let Some(before) = before else { continue };
+                let mut used = env::compiler(&pp2);
+                let warmed = crate::panics::catch(|| used.compile(&before).is_ok()).unwrap_or(false);
+                let r = crate::panics::catch(|| used.compile(&t));
+                ctx.count(&format!("repro/after-{name}{}", if warmed { "" } else { "(which failed)" }));
+                match r {
+                    Ok(Ok(c)) => {
+                        if c.payload != c1.payload || c.hash != c1.hash || c.fee != c1.fee {
+                            ctx.violation(format!("nondeterministic:in-process:after-{name}"), detail(json!({"second_payload": hex::encode(&c.payload), "compiled_before": hex::encode(tx3_tir::encoding::to_bytes(match &before { AnyTir::V1Beta0(x) => x }).0).chars().take(3000).collect::<String>()})));
+                        }
+                    }
+                    _ => ctx.violation(format!("nondeterministic:in-process:after-{name}:outcome"), detail(json!({}))),
                 }
             }
             if v.facts.has_metadata || v.facts.has_redeemers || !v.tx.mint.is_empty() {
